@@ -61,7 +61,7 @@ CHECKS = {
          "The in-process pipeline (same library code, in-memory loader) supplies the reference verdict; a malformed base is not a source error; LSP timeouts are inconclusive.",
          "DESIGN.md §4 C13"),
  "C14": ("generated base documents x accepted programs; frame equality oracle through Builder::with_base and through oal-cli --base",
-         "Exploration: bases generated over the OpenAPI object model (servers absent/empty/with variables, security, tags, externalDocs, extensions, every non-schema component map, own paths and schemas) are combined with generated programs; everything but paths and components.schemas must equal the base as the tool reads it, and those two must equal the base-less output; one pair in eight also runs through the real CLI, the base named by option, by configuration file or by option over a configuration file naming another base, and once more after the base file was replaced.",
+         "Exploration: bases generated over the OpenAPI object model (servers absent/empty/with variables, security, tags, externalDocs, extensions, every non-schema component map, own paths and schemas) are combined with generated programs; everything but paths and components.schemas must equal the base as the tool reads it, and those two must equal the base-less output, also when the base is a stale copy of the program's own output (same path and schema names, other contents, plus a path and a schema only the base has); one pair in eight also runs through the real CLI, the base named by option, by configuration file or by option over a configuration file naming another base, and once more after the base file was replaced.",
          "`The base` is the document as deserialised by the openapiv3 model used by the tool itself.",
          "DESIGN.md §4 C14"),
  "C04": ("grammar-aware text fuzzing + exhaustive short token sequences, crash/hang oracle over four front ends",
